@@ -72,6 +72,18 @@ fn generate(seed: u64, tier: Tier, em: &mut Emitter) {
             emit_prog(em, &src, &steps, Mode::Par(parts), true, &["sweep", "join_side_barrier"]);
         }
     }
+    // partitions emptied by an upstream filter in front of group_by_key
+    for (src, steps, parts, pat) in emptied_barrier_cases(tier != Tier::Quick) {
+        if steps.iter().any(|s| matches!(s, Step::GroupByKey | Step::DistinctPerKey)) {
+            emit_prog(em, &src, &steps, Mode::Par(parts), true, &["sweep", "emptied_partition", pat]);
+        }
+    }
+    // more than 64 effective partitions: a key spanning every partition must come out once
+    for (src, steps, parts) in many_partition_cases(tier != Tier::Quick) {
+        if steps.iter().any(|s| matches!(s, Step::GroupByKey | Step::DistinctPerKey)) {
+            emit_prog(em, &src, &steps, Mode::Par(parts), true, &["sweep", "many_partitions"]);
+        }
+    }
     let mut rng = seed_mix(seed, 0xC04_0002);
     let count = if tier == Tier::Quick { 1100 } else { 8000 };
     let mut made = 0;
